@@ -39,6 +39,17 @@ pub fn cases(rng: &mut Rng, tier: &str) -> (Vec<Case>, bool) {
                     let id = next_id;
                     next_id += 1;
                     let sep = rng.pick(&["", " ", "  "]);
+                    if rng.chance(1, 10) {
+                        // DATA bodies that differ only in the sign of a zero: a replacement is a replacement
+                        let k = rng.below(4) as u64;
+                        let body = ["DATA 0", "DATA -0", "DATA 0, -0", "DATA -0, 0"][k as usize];
+                        let op = start(&format!("{} {}", num, body));
+                        sess.step(&op);
+                        ops.push(op);
+                        map.insert(num.trim().parse::<u64>().unwrap(), 9_200_000_000 + k);
+                        kinds.insert("add-data-zero");
+                        continue;
+                    }
                     if rng.chance(1, 8) {
                         // a body of statement separators only is a stored line like any other (it is not a deletion)
                         let c = rng.range(1, 3);
@@ -72,7 +83,13 @@ pub fn cases(rng: &mut Rng, tier: &str) -> (Vec<Case>, bool) {
                 8 => {
                     // failed edit: tokenization error, changes nothing
                     let num = rng.pick(LINE_NUMBERS).to_string();
-                    let text = format!("{} {}", num, rng.pick(&["PRINT \"oops", "PRINT 1 % 2", "X = 1.2.3", "é"]));
+                    // untokenizable text after the number, incl. nothing but blanks that are not BASIC blanks (a line feed a host
+                    // left in, a no-break or full-width space): such a line is NOT a bare number and deletes nothing
+                    let text = if rng.chance(1, 3) {
+                        format!("{}{}", num, rng.pick(&["\n", "\u{a0}", " \u{3000}", "\t\x0b", "\u{2003} ", " \n"]))
+                    } else {
+                        format!("{} {}", num, rng.pick(&["PRINT \"oops", "PRINT 1 % 2", "X = 1.2.3", "é"]))
+                    };
                     let op = start(&text);
                     sess.step(&op);
                     ops.push(op);
